@@ -235,6 +235,9 @@ func (a *Operator) useHexBackslashes(input string) string {
 // to be interpreted as a literal.
 func (a *Operator) includeVerticalTabInSpaceClass(input string) string {
 	logger.Trace().Msg("Fixing up regex to include vertical tab (VT) in white space class matches")
+	// A range that starts at the space character (`[\s -/]`) must keep the space as its
+	// lower bound, otherwise the range would start at the vertical tab.
+	input = strings.ReplaceAll(input, `\t\n\f\r -`, `\s\x0b -`)
 	return strings.ReplaceAll(input, `\t\n\f\r `, `\s\x0b`)
 }
 
